@@ -322,6 +322,58 @@ pub fn probe(args: &[String]) -> Result<(), Box<dyn std::error::Error>> {
             let r = d.commit();
             println!("commit -> {:?} in {:?}", r.is_ok(), t.elapsed());
         }
+        "estimate-overflow" => {
+            // EVM_CALL_GAS_LIMIT = u64::MAX: the first midpoint (21000 + u64::MAX) / 2 does not fit
+            let mut cfg = NetCfg::regtest();
+            cfg.cap = u64::MAX;
+            let mut d = Drv::new(cfg);
+            let _ = d.initialise(&Hx::zero32(), 1_700_000_000);
+            let to = Address::from_slice(&[0x77; 20]);
+            let (r, ss) = d.estimate_gas(Some(sim::pkscript_address(PKSCRIPTS[0])), Some(to), &[1, 2, 3]);
+            println!("eth_estimateGas with evm_call_gas_limit = u64::MAX -> {:?} after {} simulated runs", r, ss.len());
+        }
+        "explicit-height" => {
+            let mut d = Drv::new(NetCfg::regtest());
+            let _ = d.initialise(&Hx::zero32(), 1_700_000_000);
+            let z = Hx::zero32();
+            let (r, _) = d.deploy(PKSCRIPTS[0], &sim::multitool_init(), 400, &z, 1_700_000_600, &z);
+            let tool = Hx::from_hex(r.unwrap()["contractAddress"].as_str().unwrap()).to_address();
+            let _ = d.finalise(1_700_000_600, &z);
+            for (i, v) in [(0u64, 5u64), (1, 6)] {
+                let _ = d.call(PKSCRIPTS[0], Some(tool), Some(&cd::sstore(alloy::primitives::U256::from(1), alloy::primitives::U256::from(v))), 50, &z, 1_700_001_200 + 600 * i, &z);
+                let _ = d.finalise(1_700_001_200 + 600 * i, &z);
+            }
+            println!("slot 1 := 5 in block 2, := 6 in block 3; height now {}", d.block_number());
+            let me = sim::pkscript_address(PKSCRIPTS[0]);
+            for b in [None, Some("pending"), Some("latest"), Some("0x2"), Some("0x1")] {
+                let calls = vec![Ti { from: me, to: Some(tool), data: cd::context() }, Ti { from: me, to: Some(tool), data: cd::sload(alloy::primitives::U256::from(sim::SLOT_CTX)) },
+                                 Ti { from: me, to: Some(tool), data: cd::sload(alloy::primitives::U256::from(1)) }];
+                let (r, ss) = d.eth_call_many(&calls, None, b.map(|x| (x.to_string(), 0)));
+                let v = r.unwrap_or(Value::Null);
+                println!("eth_callMany block={:?}: NUMBER seen = {}, slot 1 = {}, nonce used = {}", b, envs::hexu(&json!(v[1].as_str().unwrap_or("").trim_start_matches("0x").trim_start_matches('0'))),
+                    envs::hexu(&json!(v[2].as_str().unwrap_or("").trim_start_matches("0x").trim_start_matches('0'))), ss.first().map(|s| s.env["tx"]["nonce"].clone()).unwrap_or(Value::Null));
+            }
+            println!("account nonce now {}", d.nonce(me));
+        }
+        "f14" => {
+            // allowance below the intrinsic gas: revm refuses the transaction
+            let mut d = Drv::new(NetCfg::regtest());
+            let _ = d.initialise(&Hx::zero32(), 1_700_000_000);
+            let z = Hx::zero32();
+            let me = sim::pkscript_address(PKSCRIPTS[0]);
+            let to = Address::from_slice(&[0x77; 20]);
+            for k in 0..2 {
+                let n0 = d.nonce(me);
+                let (r, ss) = d.call(PKSCRIPTS[0], Some(to), Some(&[9, 9]), 1, &z, 1_700_000_600, &z);
+                let v = r.unwrap_or(Value::Null);
+                println!("call #{} with byte_len 1: status {} gasUsed {} txHash {} idx {}; revm said {:?}; nonce {} -> {}", k, v["status"], v["gasUsed"], v["transactionHash"], v["transactionIndex"],
+                    ss.first().map(|s| s.result["reason"].clone()), n0, d.nonce(me));
+            }
+            let (r, _) = d.rpc("eth_getBlockTransactionCountByNumber", json!(["pending"]));
+            println!("finalise with 2 -> {:?}; block 1 tx count {:?}", d.finalise(1_700_000_600, &z).is_ok(), r);
+            let (r, _) = d.rpc("eth_getBlockByNumber", json!(["0x1", false]));
+            println!("block 1 transactions: {}", r.unwrap_or(Value::Null)["transactions"]);
+        }
         _ => println!("unknown probe"),
     }
     Ok(())
